@@ -86,7 +86,14 @@ def do_op(op, base, target, version, metafile, scratch, plen=1, alt=False, route
             from torrentfile.rebuild import Assembler
             dest = os.path.join(scratch, "dest")
             os.makedirs(dest, exist_ok=True)
-            asm = Assembler([metafile], [os.path.join(base, "r")], dest)
+            # search directories: the content root itself, an empty directory, or a copy of r/a only
+            search = os.path.join(base, "r")
+            if route in ("empty", "part"):
+                search = os.path.join(scratch, "search-" + route)
+                os.makedirs(search, exist_ok=True)
+                if route == "part" and os.path.isfile(fpath(base, "r/a")):
+                    shutil.copyfile(fpath(base, "r/a"), os.path.join(search, "a"))
+            asm = Assembler([metafile], [search], dest)
             n = asm.assemble_torrents()
             return {"status": "ok", "sig": "%s/%s" % (n, snap_sig(dest))}
     except SystemExit as ex:
@@ -140,9 +147,16 @@ def run_history(case):
         for stp in case["steps"]:
             n += 1
             op = stp["op"]
-            if op in ("add", "delete", "grow", "shrink", "rewrite"):
+            if op in ("add", "delete", "grow", "shrink", "rewrite", "rewritekeep"):
                 key = stp["file"]
-                if op == "delete":
+                if op == "rewritekeep":
+                    # in place: same inode, same length, modification time put back (rsync --inplace --times)
+                    gens[key] = gens.get(key, 0) + 1
+                    st0 = os.stat(fpath(base, key))
+                    with open(fpath(base, key), "r+b") as fh:
+                        fh.write(content("sys/" + key, SIZES[fs[key]], gens[key]))
+                    os.utime(fpath(base, key), ns=(st0.st_atime_ns, st0.st_mtime_ns))
+                elif op == "delete":
                     os.remove(fpath(base, key))
                     fs.pop(key, None)
                 else:
@@ -170,7 +184,7 @@ def run_history(case):
                 mf_fr = os.path.join(scratch_fr, "m.torrent")
                 shutil.copyfile(mf_in, mf_fr)
             alt = (n + case["id"]) % 2 == 1
-            route = stp.get("route", "lib")
+            route = stp.get("route", "lib") if op == "create" else stp.get("search", "own")
             res_fr = fresh(op, base, target, version, mf_fr, scratch_fr, plen, alt, route)
             res_in = do_op(op, base, target, version, mf_in, scratch_in, plen, alt, route)
             rec = {"id": rid + n, "group": "none", "sysop": op, "target": target, "version": version,
